@@ -30,8 +30,7 @@ Events == Traces[tid].events
 Ev == Events[l]
 Srv == ToSet(C.servers)
 
-PairsOfMap(m) == UNION {{<<m[k][i], ToNat(k)>> : i \in 1..Len(m[k])} : k \in DOMAIN m}
-  \* m : "share number" -> sequence of server names
+PairsOfSeq(q) == {<<q[i][1], q[i][2]>> : i \in 1..Len(q)}     \* q : sequence of <<server name, share number>>
 
 UnhappyClasses == {"UploadUnhappinessError", "NoServersError"}
 
@@ -56,10 +55,19 @@ VWriteLost(e) == V("", St, holes \cup {<<e.srv, e.sh>>}, res)
 VClose(e) == IF e.ok THEN V("", ApplyClose(St, e.srv, e.sh), holes, res) ELSE Same("")
 VAbort(e) == IF e.ok THEN V("", ApplyAbort(St, e.srv, e.sh), holes, res) ELSE Same("")
 
+\* ground truth from the harness: even if every server that is not removed, not failing on every call and
+\* not full / read-only took any share, the threshold could not be met
+Capable(s) == s \notin ToSet(C.removed) /\ C.modes[s] # "failing"
+ReachAdj == [s \in Srv |-> IF ~Capable(s) THEN {}
+                           ELSE IF AcceptsWrites(C.modes[s]) THEN (0..(C.n - 1)) \cup ToSet(C.pre[s])
+                           ELSE ToSet(C.pre[s])]
+SurelyUnreachable == MaxMatching(ReachAdj) < C.happy
+
 VSuccess(e) ==
-  LET placed == PairsOfMap(e.placed)
-      found == PairsOfMap(e.found)
-  IN IF ~PlacedFinal(St, placed) THEN Same("C06_PlacedFinal")
+  LET placed == PairsOfSeq(e.placed)
+      found == PairsOfSeq(e.found)
+  IN IF SurelyUnreachable THEN Same("C06_UnreachableButSuccess")
+     ELSE IF ~PlacedFinal(St, placed) THEN Same("C06_PlacedFinal")
      ELSE IF ~PlacedComplete(holes, placed) THEN Same("C06_PlacedComplete")
      ELSE IF ~FoundPresent(St, found) THEN Same("C06_FoundPresent")
      ELSE IF HappinessOfPairs(placed \cup found) < C.happy THEN Same("C06_SuccessMeetsHappiness")
@@ -70,9 +78,12 @@ VFailure(e) ==
   ELSE IF e.cls = "AssertionError" /\ e.where = "upload.py:set_shareholders"
     THEN \* known benign death (one share number on two trackers); outside the statement: not judged
          V("", St, holes, [kind |-> "died", placed |-> {}])
-  ELSE Same("C06_ErrorClass")
+  ELSE IF SurelyUnreachable THEN Same("C06_ErrorClass")
+  ELSE \* the threshold was reachable: the statement does not say how such an upload may fail; recorded, not judged
+       V("", St, holes, [kind |-> "died", placed |-> {}])
 
-VHang(e) == Same("C06_ErrorClass_no_result")
+VHang(e) == IF SurelyUnreachable THEN Same("C06_ErrorClass_no_result")
+            ELSE V("", St, holes, [kind |-> "died", placed |-> {}])
 
 VQuiescent(e) ==
   LET D == e.disk
@@ -84,7 +95,6 @@ VQuiescent(e) ==
      ELSE IF \E s \in Srv : listed(s) # fin(s) THEN Same("C06_NoPartialVisible_listing_differs_from_disk")
      ELSE IF \E s \in Srv : fin(s) # FinalOn(St, s) THEN Same("store_disk_differs_from_replayed_store")
      ELSE IF res.kind = "success" /\ \E p \in res.placed : p[2] \notin cmain(p[1]) THEN Same("C06_PlacedComplete_on_disk")
-     ELSE IF res.kind = "unhappy" /\ \E s \in Srv : ToSet(D[s].incoming) # {} THEN Same("incoming_left_after_unhappy")
      ELSE Same("")
 
 Verdict(e) ==
